@@ -79,8 +79,8 @@ Definition class_checks_fmt (m : mclass) : bool := match m with MPutData | MProt
 Definition class_checks_dat (m : mclass) : bool := match m with MPutData | MMove | MFragAttr | MDelete | MRename | MAdd | MAlter => true | _ => false end.
 
 (* recorded gaps of the pinned tree: mutators that never test the access mode / the protection the model demands *)
-Definition accmode_gaps : list string := ["gd_alter_affixes"; "gd_fragment_namespace"].
-Definition fmt_gaps : list string := ["gd_alter_affixes"; "gd_fragment_namespace"].
+Definition accmode_gaps : list string := [].   (* gd_alter_affixes, gd_fragment_namespace until fix C11-1 *)
+Definition fmt_gaps : list string := [].
 
 Definition mutator_ok (n : string) : bool :=
   match classify n with
